@@ -24,7 +24,8 @@ C03ok(o) == WF(o.pre) => WF(o.post)
 \* ill-formed by poking at private attributes: those are judged only from well-formed worlds
 C04u(o)  == ((o.src = "test" => WF(o.pre)) /\ UniqueSiblings(o.pre)) => UniqueSiblings(o.post)
 C04n(o)  == NamesOK(o.pre) => NamesOK(o.post)
-C06ok(o) == (o.src = "test" => WF(o.pre)) => Atomic(o.pre, o.out, o.post)
+\* (finalize / clean of a whole document resolve several links one after the other and are C12's subject, not C06's)
+C06ok(o) == (o.op.name \in {"doc:finalize", "doc:clean"}) \/ ((o.src = "test" => WF(o.pre)) => Atomic(o.pre, o.out, o.post))
 Conforms(o) == [out |-> o.out, st |-> Core(o.post)] \in Post(Core(o.pre), o.op)
 
 Check(i) == LET o == Obs[i] IN
